@@ -26,7 +26,7 @@ CLAIMED["C13"] = dict(technique=_SRV_T, note=_SRV_N, ref="DESIGN.md §3 R9, §4 
 CLAIMED["C14"] = dict(technique=_SRV_T + "; reviewed panic table; command-scalar index rule", note=_SRV_N, ref="DESIGN.md §4 C14",
     text="For every command kind and every state at once: fallback arms reply an error, restore the state, continue and have no side effect; no actor mutation lies on any CFG path before (or after) an InvalidState*/UnknownSender reply; the state test dominates the type check in schedule; no command-supplied scalar indexes a container unchecked; every panic-capable call in the actor is in a reviewed table; the panic arm of internal_consts_sent is unreachable by the extracted relation.")
 CLAIMED["C15"] = dict(technique=_SRV_T + "; Notify direction discipline", note=_SRV_N, ref="DESIGN.md §4 C15",
-    text="For cancel at any state: handle_cmd breaks after cancel on every path; cancel consumes the actor; every arm answers on every path; client-owning arms call send_cancel exactly once before an Ok reply, Init/ValidateRequested never, Executing delegates to the task whose cancel branch calls send_cancel once then signals back. One genuine defect is recorded as a known finding: a single Notify used in both directions (self-wake).")
+    text="For cancel at any state: handle_cmd breaks after cancel on every path; cancel consumes the actor; every arm answers on every path; client-owning arms call send_cancel exactly once before an Ok reply, Init/ValidateRequested never, Executing delegates to the task whose cancel branch calls send_cancel once; the two-Notify handshake is directional (the task waits on the Notify cancel() signals and signals the Notify cancel() awaits on every path to its end, after everything it sends; no body signals and awaits the same Notify); cancel never builds a second client and awaits the client back from the consts task; the Cancel arm does not touch the actor before cancel(); the HTTP cancel_all loop ends only when every cancel request finished.")
 CLAIMED["C16"] = dict(technique=_SRV_T + "; fail-closed comparison edges", note=_SRV_N, ref="DESIGN.md §4 C16",
     text="All four leader/hash comparison edges, the leader's joined validate results and garble_lang::check are fail-closed with respect to Validated and every Ok reply (mismatch edge: error reply to the validate caller + Break; good edge dominates Validated); check dominates every effect of schedule; polytune::mpc is started only from run x Running and the states leading there are entered only from their predecessors.")
 CLAIMED["C17"] = dict(technique=_SRV_T + "; permit typestate by dominance", note=_SRV_N + " The numeric bound itself is the tokio semaphore's contract.", ref="DESIGN.md §4 C17",
@@ -37,7 +37,7 @@ CLAIMED["C02"] = dict(technique=_R2_T, note=_R2_N, ref="DESIGN.md §3 R2, §4 C0
     text="For every protocol message that can influence an output bit, on every CFG path (= for every adversarial message, index, party): the demanded fail-closed checks exist with the right ingredients (R2.1), received bits are used only behind their MAC check (R2.3), absent shares are errors (R2.4), MAC-check loops cannot be shortened by peer-sized vectors (R2.5), no iteration bypasses a check except own-party skips (R2.7), equivocation-sensitive labels use verified broadcast (R2.6). Structural necessary conditions of integrity.")
 CLAIMED["C03"] = dict(technique=_R2_T + "; decrypt result propagation", note=_R2_N, ref="DESIGN.md §4 C03",
     text="Per authenticated field of each online-phase message the consuming party has a fail-closed abort check (exists, right ingredients, dominates the use, every element and sender, absent => Err), masked inputs use the verified broadcast with conflict rejection, and AEAD failure of garble::decrypt is returned as Err.")
-CLAIMED["C04"] = dict(technique=_R2_T + "; must-precede across awaits by Ready-edge dominance; enumeration of shared-generator draws/clones", note=_R2_N + " Known findings (7) recorded in known_findings.json.", ref="DESIGN.md §3 R2/R3/R4, §4 C04",
+CLAIMED["C04"] = dict(technique=_R2_T + "; must-precede across awaits by Ready-edge dominance; enumeration of shared-generator draws/clones", note=_R2_N + " Known findings (5, all challenge-generator timing/cloning) recorded in known_findings.json.", ref="DESIGN.md §3 R2/R3/R4, §4 C04",
     text="Preprocessing: every verification step named by the property has a fail-closed check reached by the corresponding receive (coin toss, aBit, aShare, LaAND, buckets, Beaver, KOS, Ristretto, echo broadcast), every received commitment component is opened, commit rounds complete (await Ready edge) before the reveal exchange is created and the revealed local is the committed one, and every draw from / clone of a shared challenge generator is enumerated. Genuine protocol-level defects of the pinned tree are recorded as known findings.")
 CLAIMED["C08"] = dict(
     technique="type-resolved enumeration of panic-capable sinks on message components (index/slice/unwrap/alloc) with validated-nesting-level and dominating length-guard analysis; Result-drop analysis; await/guard analysis (rustc MIR)",
@@ -51,7 +51,7 @@ CLAIMED["C06"] = dict(
     ref="DESIGN.md §3 R6.1-R6.3, §4 C06")
 CLAIMED["C07"] = dict(
     technique="declassification analysis: per-function forward flow from Delta-typed / label sources to send payloads with sanitizers (hash, AEAD, OT sender, XOR with own key/label pad); claimed-bit MAC rule",
-    text="Every flow of the global key Delta to a message payload passes through a hash, garble::encrypt, the correlated-OT sender, or an XOR with an own Key/Label-derived value that is not a message component (Delta combined only with public or peer-held values alarms); own wire labels reach a payload only inside AEAD rows / key derivation or through the select Label ^ Delta; the aShare claimed-bit defect (root of the documented Delta leak) is recorded as a known finding. Combination leaks across several legitimate messages are value-level and not decided.",
+    text="Every flow of the global key Delta to a message payload passes through a hash, garble::encrypt, the correlated-OT sender, or an XOR with an own Key/Label-derived value that is not a message component (Delta combined only with public or peer-held values alarms); own wire labels reach a payload only inside AEAD rows / key derivation or through the select Label ^ Delta; the claimed bits of aShare are MAC-checked before the key sum is opened (repaired defect, rule kept); no equality test is applied to a fold over a received vector; no send computed from a message precedes the checks demanded for it; Delta, labels and OT session generators are seeded from private randomness and no private generator is cloned. Combination leaks across several legitimate messages are value-level and not decided.",
     note="Trusted: one-wayness of blake3 / AES hashes / AEAD / OT sender for Delta. Per-function flow with call summaries (result depends on arguments).",
     ref="DESIGN.md §3 R6.4, §4 C07")
 CLAIMED["C09"] = dict(
@@ -65,8 +65,8 @@ CLAIMED["C12"] = dict(
     note="Trusted: channels are per-pair FIFO; distinctness of p_out is enforced by validate() (C18).",
     ref="DESIGN.md §3 R8, §4 C12")
 CLAIMED["C01"] = dict(
-    technique="sibling agreement of the instruction walkers (per-Op stream consumption counted on the CFG), batch-size provenance and flush-idiom rules, literal-party-index rule (rustc MIR)",
-    text="Necessary conditions for all parties staying in step for every circuit, role assignment and batch count: the four loops over circ.insts consume the preprocessing streams identically per Op variant (random-share stream exactly once for Input/And, AND-share/table-share/garbled-gate streams only for And); batch-size methods read only num_inputs/num_and_ops, every flush comparison is `len >= bound` with a bound from these methods and every chunk_size_iter/chunks argument comes from them; no literal is used as a party index. Functional correctness of garbling/evaluation is value-level and not decided.",
+    technique="sibling agreement of the instruction walkers (per-Op stream consumption counted on the CFG), register-machine discipline of the walks (store at inst.out, operand reads, read-before-store, operand dependence), batch-size provenance and flush-idiom rules, accumulate-once rule, no spontaneous abort on own values, literal-party-index rule (rustc MIR)",
+    text="Necessary conditions for all parties staying in step for every circuit, role assignment and batch count: the four loops over circ.insts consume the preprocessing streams identically per Op variant (random-share stream exactly once for Input/And, AND-share/table-share/garbled-gate streams only for And); batch-size methods read only num_inputs/num_and_ops, every flush comparison is `len >= bound` with a bound from these methods and every chunk_size_iter/chunks argument comes from them; every store into a register-indexed table inside a walk goes to inst.out, Xor/And arms read the table at both operand registers and Not at its operand, for Xor/Not the stored value is computed from those reads, and no operand read follows the store within an iteration (register reuse); a register slot accumulated from its own value is visited once per register; no fail-closed branch compares own secret values without a message component; no literal is used as a party index. Functional correctness of garbling/evaluation is value-level and not decided.",
     note="Trusted: rustc MIR; garble_lang Op variant order. Value-level correctness (XOR/AES/AEAD algebra) needs execution or proof and is declined.",
     ref="DESIGN.md §4 C01")
 NA = {
